@@ -2,6 +2,7 @@ import SdJwt.Impl.Restore
 import SdJwt.Impl.Issuer
 import SdJwt.Lemmas.IssuerL
 import SdJwt.Lemmas.Assoc
+import SdJwt.Lemmas.IssueAll
 /-!
 # C07 — issued SD-JWTs are spec-conformant as judged by an independent verifier
 
@@ -13,8 +14,11 @@ The independent verifier is `Spec/RefVerify.lean` (written from the specificatio
 definition with `Impl/`); it is *run* on the bytes of the real issuer's output by every check.
 Proved here: the JSON-level disclosure round trip, that reserved names are never used, and the
 local placement facts of the issuer model (digest of a member goes to the parent's `_sd`, digest of
-an element takes the element's index). The global statement (issuer output = `payload T` for the
-marked tree `T`) is T-issue, DESIGN §4.
+an element takes the element's index). `C07_issue` is the global statement (T-issue): the
+issuer model's output for a list of paths is `payload Tn` for the marked tree `Tn` obtained by
+marking the addressed nodes one after another — each digest embedded exactly once, at the position
+of the node it replaces (that is what `payload` of a marked tree is) — `Tn` is conformant and
+stands for the same claims; `C07_pointer` shows every rendered JSON pointer is parsed back.
 -/
 open Impl Spec Assoc
 
@@ -82,3 +86,29 @@ theorem C07_sd_alg_declared (ms : List (String × J)) (p : String) (ps : List St
       obtain ⟨rfl, _⟩ := h
       exact ⟨_, rfl, Assoc.aget_ains_self _ _ _⟩
     | _ => simp [J.isObj] at ho
+
+/-- **T-issue.** For every claims tree `T` (possibly already partly marked), every list of path
+strings addressing nodes `addr` and every digest function: if marking those nodes in that order is
+defined (each path reaches a not yet hidden node through not yet hidden nodes — nested before
+enclosing, no repeats — and each digest is new to the tree), the issuer's working copy is the
+payload of the marked tree, the disclosures are those of the marked nodes in path order, the
+marked tree is well formed, and its original claims are unchanged. -/
+theorem C07_issue (mk : Nat → Option String → J → String) (paths : List String)
+    (addr : List (List String × String)) (T Tn : MJ) (ds : List SDisc) (wf : T.WF)
+    (hp : ParsedAll paths addr) (h : markAll mk 0 addr T = some (Tn, ds)) :
+    applyPaths mk 0 T.payload paths = .ok (Tn.payload, ds.map toSrc) ∧ Tn.WF ∧ Tn.plain = T.plain :=
+  applyPaths_markAll mk paths addr 0 T Tn ds wf hp h
+
+/-- every JSON pointer rendered from names (any names: empty, numeric-looking, with `/` or `~`)
+is parsed by the issuer into exactly those names (D20) -/
+theorem C07_pointer (toks : List String) (last : String) : Parsed (renderPath toks last) toks last :=
+  parsed_renderPath toks last
+
+/-- non-vacuity: marking `/addr/street` and then `/addr` in `{"addr":{"street":"x"},"n":1}` is
+defined, and the result hides both -/
+example :
+    let T : MJ := .obj (.clear "addr" (.obj (.clear "street" (.leaf (.str "x")) .nil) none)
+                    (.clear "n" (.leaf (.num 1 0)) .nil)) none
+    (markAll (fun i _ _ => "dg" ++ toString i) 0 [(["addr"], "street"), ([], "addr")] T).map (fun r => r.1.payload)
+      = some (.obj [("_sd", .arr [.str "dg1"]), ("n", .num 1 0)]) := by
+  rfl
